@@ -92,8 +92,11 @@ def direction_deg(a1, b1):
 
 
 def spread_deg(a1, b1):
+    """sqrt(2(1-R)) in degrees; R exceeding 1 by rounding only (unidirectional energy) counts as 1"""
+    R = np.sqrt(np.asarray(a1, dtype=float) ** 2 + np.asarray(b1, dtype=float) ** 2)
+    R = np.where((R > 1.0) & (R < 1.0 + 1e-12), 1.0, R)
     with np.errstate(invalid="ignore"):
-        return np.degrees(np.sqrt(2.0 * (1.0 - np.sqrt(np.asarray(a1) ** 2 + np.asarray(b1) ** 2))))
+        return np.degrees(np.sqrt(2.0 * (1.0 - R)))
 
 
 def first_argmax_in_band(e, f, fmin=0.0, fmax=np.inf):
